@@ -55,15 +55,16 @@ Fixpoint assoc (x : name) (fs : list (name * nat)) : option nat :=
   | (y, c) :: r => if Nat.eqb x y then Some c else assoc x r
   end.
 
-(* children visited by AttributeExpr.Validate (expr/attribute.go:207-241): the
-   fields of an object, the element of an array; maps are NOT descended into *)
+(* children visited by AttributeExpr.Validate (expr/attribute.go): the fields of an
+   object, the element of an array, the key and the element of a map *)
 Definition validate_children (g : graph) (n : nat) : list nat :=
   match get g n with
   | None => []
   | Some nd => match n_kind nd with
                | KObj fs => map snd fs
                | KArr e => [e]
-               | _ => []
+               | KMap k e => [k; e]
+               | KPrim => []
                end
   end.
 
@@ -162,35 +163,59 @@ Fixpoint kwalk_list {X : Type} (key : X -> nat) (children : X -> list X) (fuel :
 Definition inherit_attr (g : graph) (fuel : nat) (a p : nat) : option (list nat) :=
   kwalk_list fst (inherit_children g) fuel [] (inherit_units g a p).
 
-(* AttributeExpr.Find (expr/attribute.go:549-576): the attribute's own type (through
-   the user type's attribute, recursively), then each base, then each reference. No
-   guard. Some None = not found, None = out of fuel. *)
-Fixpoint gfind (g : graph) (fuel : nat) (n : nat) (x : name) : option (option nat) :=
+(* AttributeExpr.Find / find (expr/attribute.go): the attribute's own type (through
+   the user type's attribute, recursively), then each base, then each reference, with
+   a `seen` set shared by the whole lookup: an attribute already looked at answers
+   "not found" at once, so types that extend or reference each other are no problem.
+   Result: the set after the lookup and the attribute found; None = out of fuel. *)
+Fixpoint gfind (g : graph) (fuel : nat) (seen : list nat) (n : nat) (x : name) : option (list nat * option nat) :=
   match fuel with
   | 0 => None
   | S f =>
-      match get g n with
-      | None => Some None
-      | Some nd =>
-          let own := match n_user nd with
-                     | Some u => gfind g f u x
-                     | None => Some (assoc x (obj_fields (n_kind nd)))
-                     end in
-          match own with
-          | None => None
-          | Some (Some c) => Some (Some c)
-          | Some None =>
-              (fix go (l : list nat) : option (option nat) :=
-                 match l with
-                 | [] => Some None
-                 | b :: r => match gfind g f b x with
-                             | None => None
-                             | Some (Some c) => Some (Some c)
-                             | Some None => go r
-                             end
-                 end) (n_inh nd)
-          end
-      end
+      if mem n seen then Some (seen, None)
+      else
+        match get g n with
+        | None => Some (n :: seen, None)
+        | Some nd =>
+            let own := match n_user nd with
+                       | Some u => gfind g f (n :: seen) u x
+                       | None => Some (n :: seen, assoc x (obj_fields (n_kind nd)))
+                       end in
+            match own with
+            | None => None
+            | Some (s, Some c) => Some (s, Some c)
+            | Some (s, None) =>
+                (fix go (s : list nat) (l : list nat) : option (list nat * option nat) :=
+                   match l with
+                   | [] => Some (s, None)
+                   | b :: r => match gfind g f s b x with
+                               | None => None
+                               | Some (s', Some c) => Some (s', Some c)
+                               | Some (s', None) => go s' r
+                               end
+                   end) s (n_inh nd)
+            end
+        end
+  end.
+
+(* hasTag / hasTagPrefix (expr/method.go): does the payload, one of its bases, or its
+   user type carry a credential attribute? Bases first, then the user type; NO guard.
+   [has n]: the attribute itself has the tag; [bases], [user]: where the recursion goes. *)
+Fixpoint ghastag (has : nat -> bool) (bases : nat -> list nat) (user : nat -> option nat) (fuel : nat) (n : nat) : option bool :=
+  match fuel with
+  | 0 => None
+  | S f =>
+      if has n then Some true
+      else
+        (fix go (l : list nat) : option bool :=
+           match l with
+           | [] => match user n with Some u => ghastag has bases user f u | None => Some false end
+           | b :: r => match ghastag has bases user f b with
+                       | None => None
+                       | Some true => Some true
+                       | Some false => go r
+                       end
+           end) (bases n)
   end.
 
 Definition find_fuel (g : graph) : nat := S (List.length g).
@@ -201,7 +226,7 @@ Definition missing_required (g : graph) (n : nat) : list name :=
   | None => []
   | Some nd =>
       match n_kind nd with
-      | KObj _ => filter (fun x => match gfind g (find_fuel g) n x with Some (Some _) => false | _ => true end) (n_req nd)
+      | KObj _ => filter (fun x => match gfind g (find_fuel g) [] n x with Some (_, Some _) => false | _ => true end) (n_req nd)
       | _ => []
       end
   end.
@@ -349,6 +374,8 @@ Inductive err :=
 | ERespCookie (n : name)       (* cookie %q has no equivalent attribute in result type *)
 | ERespBody (n : name)         (* body %q has no equivalent attribute / Response type does not have an attribute named *)
 | ERespNoResult                (* response defines headers but result is empty *)
+| ETag (n : name)              (* Tag attribute %q not found in result. *)
+| ETagNotObject                (* Some responses define a Tag but the method Result type is not an object. *)
 | EErrResponse (n : name)      (* Error %#v does not match an error defined in the method|service|API *)
 | EErrHeader (n : name)        (* header %q has no equivalent attribute in error type *)
 | EScheme (n : name)           (* security scheme %q not found *)
@@ -390,7 +417,7 @@ Definition result_has (r : result) (n : name) : bool :=
       | Some vs =>
           match r_fixed r with
           | Some v => match lookup_view vs v with
-                      | Some w => mem n (v_attrs w)     (* the code panics when n is not in the view: finding *)
+                      | Some w => mem n (v_attrs w)
                       | None => false
                       end
           | None => forallb (fun w => mem n (v_attrs w)) vs && mem n attrs
@@ -507,7 +534,7 @@ Definition find_err (ls : list (list errdef)) (n : name) : option errdef :=
    service: service, API; API: API) *)
 Definition validate_eresponse (ls : list (list errdef)) (er : eresponse) : list err :=
   match find_err ls (er_name er) with
-  | None => [EErrResponse (er_name er)]    (* with headers the code panics here: finding *)
+  | None => [EErrResponse (er_name er)]    (* the header checks are skipped for an unknown error *)
   | Some e => match e_shape e with
               | SObj attrs => map EErrHeader (filter (fun n => negb (mem n attrs)) (er_headers er))
               | _ => []
@@ -534,7 +561,21 @@ Definition validate_response (m : method) (rs : response) : list err :=
            end
    end) ++
   map ERespBody (filter (fun n => negb (result_has r n)) (body_names (rs_body rs))).
-  (* rs_tag: no check anywhere (the Tag attribute is only used by the code generators) *)
+
+(* Tag attributes (expr/http_endpoint.go, after the loop over the responses): the result
+   must be an object (expr.Empty counts as one, without attributes) and have the attribute *)
+Definition tags_of (h : http) : list name :=
+  flat_map (fun rs => match rs_tag rs with Some t => [t] | None => [] end) (h_responses h).
+
+Definition validate_tags (m : method) (h : http) : list err :=
+  match tags_of h with
+  | [] => []
+  | ts => match r_shape (m_result m) with
+          | SObj attrs => map ETag (filter (fun t => negb (mem t attrs)) ts)
+          | SEmpty => map ETag ts
+          | SUserNonObj | SOther => [ETagNotObject]
+          end
+  end.
 
 (* HTTPEndpointExpr.Validate (expr/http_endpoint.go:337-651), RouteExpr.Validate
    (:893-915), validateParams (:725-808), validateHeadersAndCookies (:812-877) *)
@@ -557,6 +598,7 @@ Definition validate_http (d : design) (s : service) (m : method) (h : http) : li
    | _ => []
    end) ++
   flat_map (validate_response m) (h_responses h) ++
+  validate_tags m h ++
   flat_map (validate_eresponse [m_errors m; s_errors s; d_errors d]) (h_errors h).
 
 Definition reachable_nodes (g : graph) (roots : list nat) : list nat :=
@@ -674,11 +716,10 @@ Definition resolves (r : ref) : Prop :=
   | RScope d q n => exists s sc, In s (q_schemes q) /\ In sc (d_schemes d) /\ sc_name sc = s /\ In n (sc_scopes sc)
   | RAttrView ats n v => exists a vs, nth_error ats n = Some a /\ a_rtviews a = Some vs /\ (v = default_view \/ In v vs)
   | RViewAttr t n => In n (rt_attrs t)
-  | RRequired g nd n => exists c, gfind g (find_fuel g) nd n = Some (Some c)
+  | RRequired g nd n => exists s c, gfind g (find_fuel g) [] nd n = Some (s, Some c)
   | RCred m c => In c (m_creds m)
   end.
 
-Definition is_tag (r : ref) : bool := match r with RTag _ _ => true | _ => false end.
 
 (* ====================================================================== *)
 (* Part 3 - DSL context table                                             *)
